@@ -514,12 +514,18 @@ impl Retrier {
                     Err(e) => {
                         match e {
                             AddAppointmentError::RequestError(e) => {
+                                // Back off no matter whether the tower cannot be reached or it is replying with something unexpected.
+                                // Otherwise the appointment would be sent over and over again without any delay.
                                 if e.is_connection() {
                                     log::warn!(
                                         "{tower_id} cannot be reached. Tower will be retried later"
                                     );
-                                    return Err(Error::transient(RetryError::Unreachable));
+                                } else {
+                                    log::warn!(
+                                        "Unexpected response from {tower_id} ({e:?}). Tower will be retried later"
+                                    );
                                 }
+                                return Err(Error::transient(RetryError::Unreachable));
                             }
                             AddAppointmentError::ApiError(e) => match e.error_code {
                                 errors::INVALID_SIGNATURE_OR_SUBSCRIPTION_ERROR => {
